@@ -53,3 +53,19 @@ PROPS['C16'] = dict(
     assumptions=COMMON_ASSUME + ['the derive macro is exercised through seven concrete define_language! instances built from /repo/slotted-egraphs-derive (patched in)'],
     pending_theorems=['weakShape_rename', 'weakShape_idem', 'weakShape_apply (under NoCapture)', 'weakShape_eq_iff', 'fromSyntax_toSyntax'],
 )
+
+PROPS['C18'] = dict(
+    level='proof',
+    module='SlotVerif.Props.C18',
+    suites=[dict(name='parse', variant='default', shrink=False,
+                 quick=dict(count=120000), thorough=dict(count=2000000))],
+    rule='corr.parse.roundtrip + corr.parse.fuzz over the 7 harness languages: 1/6 of the cases print a generated pattern '
+         '(depth <= 4, nested substitution brackets, textual/numeric/f<n> slots, payloads of every type), term or multi-pattern and '
+         'parse the text back (round-trip predicate evaluated on the implementation); 5/6 mutate such a text (truncate at any char, '
+         'drop prefix, delete/duplicate/swap tokens, splice brackets, `:=`, `?`, `$`, unicode whitespace, surplus arguments) and '
+         'compare the outcome class ok:<printed>|err:<ParseError variant>|panic with the model. non-trivial = text with >= 2 '
+         'nesting levels or a substitution bracket, or any mutated text; distinct = by hash of the case line',
+    trusted_base=['modelled, not verified: char::is_whitespace (model: the Unicode White_Space list written out), str::trim/split, payload FromStr impls'],
+    assumptions=COMMON_ASSUME + ['texts are parsed in a fresh thread (empty slot table) on both sides'],
+    pending_theorems=['print_parse_pattern (round-trip as a theorem)', 'parse_wf (arity of every accepted node)'],
+)
